@@ -162,6 +162,9 @@ class NFInterp(Interp):
 
     def e_Compare(self, n, env):
         vals = [self.ev(n.left, env)] + [self.ev(c, env) for c in n.comparators]
+        if len(n.ops) == 1 and isinstance(n.ops[0], (ast.Is, ast.IsNot)) and isinstance(n.comparators[0], ast.Constant) and n.comparators[0].value is None \
+                and isinstance(vals[0], NF):
+            return isinstance(n.ops[0], ast.IsNot)          # a computed value is not None
         if any(isinstance(v, NF) for v in vals):
             raise Unsupported("comparison of a coordinate-dependent value: %s" % text(n))
         return super().e_Compare(n, env)
